@@ -126,9 +126,10 @@ def RG(name, cfg):
 
 
 def c09_stages(tier):
-    st = [RG('regions-q', 'MC_AffTree_regions_q.cfg')]
+    # regions-k4: K = 4 trees with one- and two-row decisions, children under labels the predicate cannot produce included
+    st = [RG('regions-q', 'MC_AffTree_regions_q.cfg'), RG('regions-k4', 'MC_AffTree_regions_k4.cfg')]
     if tier == 'thorough':
-        st += [RG('regions-t', 'MC_AffTree_regions_t.cfg')]
+        st += [RG('regions-t', 'MC_AffTree_regions_t.cfg'), RG('regions-k4t', 'MC_AffTree_regions_k4t.cfg')]
     return st
 
 
